@@ -14,6 +14,7 @@ correspondence run validates every real trace against the monitor and checks
 -/
 import DropshotModel.Lifecycle
 import DropshotProofs.Lemmas.Lifecycle
+import DropshotModel.Config
 
 namespace Dropshot.C16
 open Dropshot.Lifecycle
@@ -343,5 +344,63 @@ example : accepts .cancel [.reqSent 1 10, .reqSent 2 20, .start 10, .start 20, .
     .drop 20] = false := by decide
 example : accepts .cancel [.reqSent 1 10, .start 10, .done 10, .disconnect 1, .drop 10] = false := by
   decide
+
+/-! ### The task mode in force is the one the configuration says
+
+Deployments read `ConfigDropshot` from a file; the mode a handler runs under is
+whatever that reading yields (`DropshotModel/Config.lean`; tied to /repo by the
+`cf` / `cs` lines of the C16 stream and by every other server of the lifecycle
+harnesses being configured from a serialised configuration). -/
+
+section Config
+open Dropshot.Config Dropshot.Schema
+
+theorem readStrings_map (hs : List String) : readStrings (hs.map J.str) = some hs := by
+  induction hs with
+  | nil => rfl
+  | cons h t ih => simp [readStrings, ih]
+
+theorem readMode_modeName (m : Lifecycle.Mode) : readMode (.str (modeName m)) = some m := by
+  cases m <;> decide
+
+/-- **Round trip.**  A configuration written out and read back is the same
+configuration - in particular the same task mode - whatever its values (a body
+limit that fits `usize`, an address `SocketAddr` prints and reads back). -/
+theorem config_roundtrip (validAddr : String → Bool) (c : Cfg)
+    (ha : validAddr c.bind = true) (hm : c.maxBytes ≤ usizeMax) :
+    parse validAddr (serialize c) = some c := by
+  have h1 : (0 : Int) ≤ (c.maxBytes : Int) ∧ (c.maxBytes : Int).toNat ≤ usizeMax := by
+    constructor
+    · exact Int.natCast_nonneg _
+    · simpa using hm
+  obtain ⟨b, mb, m, hs⟩ := c
+  simp only at ha hm h1
+  simp [parse, serialize, readKeys, readKey, ha, hm, h1, readMode_modeName, readStrings_map]
+
+/-- A configuration that names a mode gets that mode; one that does not gets
+`Detached` (the documented default) - never the other one. -/
+theorem config_mode_in_force (validAddr : String → Bool) (m : Lifecycle.Mode) :
+    (parse validAddr (.obj [("default_handler_task_mode", .str (modeName m))])).map (·.mode) = some m ∧
+    (parse validAddr (.obj [])).map (·.mode) = some .detached := by
+  cases m <;> simp [parse, readKeys, readKey, readMode, modeOfName, modeName, Cfg.default]
+
+/-- The retired key is refused, wherever it stands and whatever its value. -/
+theorem config_old_key_refused (validAddr : String → Bool) (pre post : List (String × J)) (v : J) :
+    parse validAddr (.obj (pre ++ ("request_body_max_bytes", v) :: post)) = none := by
+  have key : ∀ (pre : List (String × J)) (p : Partial),
+      readKeys validAddr p (pre ++ ("request_body_max_bytes", v) :: post) = none := by
+    intro pre
+    induction pre with
+    | nil => intro p; simp [readKeys, readKey]
+    | cons kv rest ih =>
+      intro p
+      obtain ⟨k, w⟩ := kv
+      simp only [List.cons_append, readKeys]
+      cases readKey validAddr p k w with
+      | none => rfl
+      | some p' => exact ih p'
+  simp [parse, key pre {}]
+
+end Config
 
 end Dropshot.C16
